@@ -132,8 +132,13 @@ def run_order_gfa(
                 + chromosome
                 + ".gfa"
             )
-            out_gfa.append(f_gfa)
             csv_file = outdir + os.sep + gfa_filename.split(os.sep)[-1][:-4] + "-" + chromosome + ".csv"
+            if not by_chrom:
+                # intermediate pieces, merged and removed below: they must not share a name with the
+                # final <name>-complete files (a chromosome may be called "complete")
+                f_gfa += ".part"
+                csv_file += ".part"
+            out_gfa.append(f_gfa)
             out_csv.append(csv_file)
             f_colors = open(csv_file, "w")
             # names and SN values may contain commas or quotes: quote such fields instead of writing a ragged row
